@@ -103,7 +103,9 @@ def extract_patches_by_sampling(
     patches = scipy_interpolation(
         pixels, points_to_sample, order=order, mode=mode, cval=cval
     )
-    patches = patches.reshape(3, patch_shape[0], patch_shape[1], n_points, n_offsets)
+    patches = patches.reshape(
+        pixels.shape[0], patch_shape[0], patch_shape[1], n_points, n_offsets
+    )
     patches = np.transpose(patches, [3, 4, 0, 1, 2])
     return np.require(patches, requirements=["C"])
 
